@@ -1855,6 +1855,9 @@ impl<'a, 'b, W: Write> Serializer for &'a mut YamlSerializer<'b, W> {
             self.write_plain_or_quoted(variant)?;
             self.out.write_str(":\n")?;
             self.at_line_start = true;
+            // The fields start on lines of their own: a "stay on the line" hint meant for this
+            // node (set for the value of a complex key) must not reach their values.
+            self.pending_inline_map = false;
             // Fields indent one more level under the variant label.
             let depth_next = base + 1;
             return Ok(StructVariantSer {
